@@ -395,7 +395,9 @@ def gen_vocab_program(rng, n_stmt):
 
 OPT_SWARM = [["-L"], ["-u"], ["-C"], ["-s"], ["-g", "MAP"], ["-g", "NOICE"], ["-g", "ATMEL"], ["-P"], ["-M"], ["-x"],
              ["-n"], ["-A"], ["-U"], ["-relaxed"], ["-compmode"], ["-maxerrors", "3"], ["-x", "-x"], ["-E", "!1"],
-             ["-gnuerrors"], ["-a"], ["-c"], ["-p"], ["-h"], ["-l"], ["-Werror"], ["-t", "3"], ["-I"]]
+             ["-gnuerrors"], ["-a"], ["-c"], ["-p"], ["-h"], ["-l"], ["-Werror"], ["-t", "3"], ["-I"],
+             # defined symbols given and taken away again on the command line
+             ["-D", "FOO"], ["+D", "BAR"], ["-D", "FOO,BAZ=3"], ["+D", "QUX,FOO"], ["-D", "X=1/0"], ["+D", "FOO"], ["-D", ""], ["+D", ","]]
 
 
 # every report the assembler can write about a program, at once (listing with usage, cross reference and section lists,
